@@ -816,11 +816,20 @@ func runC09Config(c *Ctx, named *types.Named) {
 						}
 					}
 					edges(stt.Val, map[ssa.Value]bool{})
+					// one initialisation per branch (an internal constructor called on both sides): a constant
+					// stored directly must sit on the side where no capacity was given
+					if _, isC := stt.Val.(*ssa.Const); isC {
+						for _, g := range given {
+							if g.Dominates(b) {
+								bad = append(bad, "the default capacity is stored on the path where the caller gave a capacity")
+							}
+						}
+					}
 				}
 			}
 		}
-		if n != 1 {
-			bad = append(bad, fmt.Sprintf("expected one initialisation of the capacity, found %d", n))
+		if n < 1 || n > 2 {
+			bad = append(bad, fmt.Sprintf("expected one initialisation of the capacity (or one per branch of the optional argument), found %d", n))
 		}
 		c.Check(len(bad) == 0, "C09-CONFIG", fnName(ctor), "capacity", ctor.Pos(), "capacity = requested (or the default)", uniqJoin(bad, 2))
 	}
